@@ -405,6 +405,9 @@ impl<'a> Interpreter<'a> {
                             CelValue::Dyn(d) => {
                                 stack.push_val(d.access(ident.as_str()));
                             }
+                            // a field of something that failed: the failure is the
+                            // result, it is no missing field
+                            CelValue::Err(err) => stack.push_val(self.failed_argument(err)?),
                             _ => {
                                 if let Some(bindings) = self.bindings {
                                     if bindings.get_func(ident.as_str()).is_some()
@@ -533,6 +536,8 @@ impl<'a> Interpreter<'a> {
                                         Err(err) => stack.push_val(self.failed_argument(err)?),
                                     }
                                 }
+                                // calling what failed (a method of a failed receiver)
+                                CelValue::Err(err) => stack.push_val(self.failed_argument(err)?),
                                 other => stack.push_val(
                                     CelValue::from_err(CelError::runtime(&format!(
                                         "{:?} cannot be called",
